@@ -328,7 +328,9 @@ class _CountingConverter:
 
 
 _build_cache = {}
-_SELF_NAME = re.compile(r'self\._([A-Za-z_][A-Za-z0-9_]*)\s*\[')
+_SELF_NAME = re.compile(r'self\._(?!_dict__\[)([A-Za-z_][A-Za-z0-9_]*)\s*\[')
+# names with a leading underscore are read through the instance dictionary: self.__dict__['__x'][t]
+_SELF_DICT = re.compile(r"self\.__dict__\['_([A-Za-z_][A-Za-z0-9_]*)'\]\s*\[")
 _SELF_ITEM = re.compile(r"self\['([A-Za-z_][A-Za-z0-9_]*)'")
 
 
@@ -354,7 +356,7 @@ def build_check(symbols):
             for typ, eqn, code in conv.blocks:
                 if typ != 'ENDOGENOUS':
                     continue
-                for n in _SELF_NAME.findall(code) + _SELF_ITEM.findall(code):
+                for n in _SELF_NAME.findall(code) + _SELF_DICT.findall(code) + _SELF_ITEM.findall(code):
                     if n not in names and n not in missing:
                         missing.append(n)
             if missing:
